@@ -159,11 +159,26 @@ func VerifC10Window() {
 		for j := i; j < k; j++ {
 			total += charges[j]
 			if j > i {
-				vAssert(total <= (w.stamps[j]-w.stamps[i])+10*vSec+charges[i]+charges[j], "window-bound")
+				vAssert(total <= (w.stamps[j]-w.stamps[i])+10*vSec+vTwoLargest(charges[i:j+1]), "window-bound")
 			}
 		}
 	}
 	vReach("end")
+}
+
+// vTwoLargest: the sum of the two largest charges of a run ("10 s plus two lines'
+// charges": the decay credited together with a new line's charge can offset up to
+// that line's charge, so the two lines that count are not always the first and last).
+func vTwoLargest(c []int) int {
+	a, b := 0, 0
+	for _, x := range c {
+		if x > a {
+			a, b = x, a
+		} else if x > b {
+			b = x
+		}
+	}
+	return a + b
 }
 
 // VerifC10Queued: k lines are already queued when the real send goroutine
@@ -224,7 +239,7 @@ func VerifC10Queued() {
 		for j := i; j < k; j++ {
 			total += charges[j]
 			if j > i {
-				vAssert(total <= (arrival[j]-arrival[i])+10*vSec+charges[i]+charges[j], "window-bound")
+				vAssert(total <= (arrival[j]-arrival[i])+10*vSec+vTwoLargest(charges[i:j+1]), "window-bound")
 			}
 		}
 	}
